@@ -339,8 +339,12 @@ class ConvexPolygon(GeoBody):
         return hash(
             (
                 "ConvexPolygon",
-                round(self._get_point_hash_sum(), SIG_FIGURES - 5),
-                hash(self.plane),
+                round(self._get_point_hash_sum(), get_sig_figures() - 5),
+                # the hash of a Plane ignores the sign of the normal, this one must not
+                round(self.plane.n[0], get_sig_figures()),
+                round(self.plane.n[1], get_sig_figures()),
+                round(self.plane.n[2], get_sig_figures()),
+                round(self.plane.n * self.plane.p.pv(), get_sig_figures()),
             )
         )
 
